@@ -266,7 +266,7 @@ def search(rep: C.Report, tier: str, broken):
                 rep.case(key=("eos", u, nm, round(T, 2)))
                 # outside the tabulated range the power-law extrapolation amplifies the O(tracing tolerance) noise of the boundary sound speed
                 inside = max(th1.TMinHighT, th1.TMinLowT) <= T <= min(th1.TMaxHighT, th1.TMaxLowT)
-                if abs(a - b) > (2e-5 if inside else 1e-3) * max(abs(a), abs(b)) + 1e-12 * u ** w:
+                if not abs(a - b) <= (2e-05 if inside else 0.001) * max(abs(a), abs(b)) + 1e-12 * u ** w:
                     rep.violation(f"thermodynamic function {nm} is not covariant (weight {w}) under the unit factor {u}",
                                   {"unit_factor": u, "T": float(T), "function": nm, "scaled_base": a, "rescaled_model": b},
                                   finding_key=f"C07:eos:{nm}")
